@@ -179,3 +179,64 @@ pub proof fn alg_cdf2(s: real, s2: real, h: real, gn: real, gk: real)
 {
     assert(s * h + (0.5real * s2) * (gn * gk) == s * h + s2 * gn * gk / 2real) by(nonlinear_arith);
 }
+
+// ---- division
+pub proof fn alg_mul_recip(a: real, z: real)
+    requires z != 0real,
+    ensures a * (1real / z) == a / z,
+{
+    assert(a * (1real / z) == a / z) by(nonlinear_arith) requires z != 0real;
+}
+pub proof fn alg_neg_recip(a: real, z: real)
+    requires z != 0real,
+    ensures -(a / z) == -a / z, (-1real / z) == -(1real / z),
+{
+    assert(-(a / z) == -a / z) by(nonlinear_arith) requires z != 0real;
+    assert((-1real / z) == -(1real / z)) by(nonlinear_arith) requires z != 0real;
+}
+/// a*((-1*t)*g) == (-(a*t))*g
+pub proof fn alg_scale_neg(a: real, t: real, g: real)
+    ensures a * ((-1real * t) * g) == (-(a * t)) * g,
+{
+    assert(a * ((-1real * t) * g) == (-(a * t)) * g) by(nonlinear_arith);
+}
+/// x*((-t)*g) == (-(x*t))*g
+pub proof fn alg_scale_neg2(x: real, t: real, g: real)
+    ensures x * ((-t) * g) == (-(x * t)) * g,
+{
+    assert(x * ((-t) * g) == (-(x * t)) * g) by(nonlinear_arith);
+}
+
+/// second-order reciprocal rule scaled by a constant x:  x*p.hess  with  p = y^-1
+pub proof fn alg_div2_f64(x: real, hb: real, gbn: real, gbk: real, t2: real, t3: real)
+    ensures x * ((-1real * t2) * hb + (2real * t3) * gbn * gbk / 2real) == (-(x * t2)) * hb + (2real * (x * t3)) * gbn * gbk / 2real,
+{
+    alg_scale_neg(x, t2, hb);
+    let m = t3 * gbn * gbk;
+    assert((2real * t3) * gbn * gbk / 2real == m) by(nonlinear_arith) requires m == t3 * gbn * gbk;
+    assert((2real * (x * t3)) * gbn * gbk / 2real == x * m) by(nonlinear_arith) requires m == t3 * gbn * gbk;
+    let u = (-1real * t2) * hb;
+    assert(x * (u + m) == x * u + x * m) by(nonlinear_arith);
+}
+
+pub proof fn alg_cross(g: real, t: real, h: real)
+    ensures g * ((-1real * t) * h) == (-t) * (g * h),
+{
+    assert(g * ((-1real * t) * h) == (-t) * (g * h)) by(nonlinear_arith);
+}
+pub proof fn alg_distrib(t: real, a: real, b: real)
+    ensures t * (a + b) == t * a + t * b,
+{
+    assert(t * (a + b) == t * a + t * b) by(nonlinear_arith);
+}
+/// quotient rule at second order, computed as a * b^-1 with t2 = y^-2, t3 = y^-3, w1 = y^-1
+pub proof fn alg_div2(x: real, w1: real, ha: real, hb: real, gan: real, gak: real, gbn: real, gbk: real, t2: real, t3: real)
+    ensures
+        hess_rule(ha, (-1real * t2) * hb + (2real * t3) * gbn * gbk / 2real, gan, gak, (-1real * t2) * gbn, (-1real * t2) * gbk, w1, x, 0real, 1real, 0real)
+        == hess_rule(ha, hb, gan, gak, gbn, gbk, w1, -(x * t2), 0real, -t2, 2real * (x * t3)),
+{
+    alg_div2_f64(x, hb, gbn, gbk, t2, t3);
+    alg_cross(gan, t2, gbk);
+    alg_cross(gak, t2, gbn);
+    alg_distrib(-t2, gan * gbk, gak * gbn);
+}
